@@ -30,11 +30,16 @@ _v = build._v
 def map_text(g):
     kind = g["map_kind"]
     S = {tuple(k): v for k, v in g["contents"].items()}
+    if kind == "cart" and g.get("extent"):
+        # the text map covers the whole extent, also outer rows/columns holding only placeholders
+        i0, i1, j0, j1 = g["extent"]
+        rows = [[S.get((i, j), "-") for i in range(i0, i1 + 1)] for j in reversed(range(j0, j1 + 1))]
+        return "\n".join(" ".join(r) for r in rows) + "\n"
     if kind == "cart" and g["symmetry"].startswith("full"):
         i0 = min(i for i, _ in S)
         j0 = min(j for _, j in S)
         S = {(i - i0, j - j0): v for (i, j), v in S.items()}
-    return c18_maps.ref_text(kind, S)
+    return c18_maps.ref_text(kind, S, g.get("map_pad", 0))
 
 
 def render(spec):
@@ -254,6 +259,48 @@ for _n, (_sym, _rng) in _CART.items():
             if _name == "full3":
                 continue
             dev(["cart"], "grid", _name)(_cart_grid(_sym, _rng, _hole, _m))
+
+
+def _cart_extent_grid(nx, ny, empty, asmap):
+    """Full-core text map of nx x ny tokens, centred on the origin (column c of the text is
+    i = c - nx//2), whose outer line ``empty`` (L/R/T/B) holds only placeholders."""
+    i0, j0 = -(nx // 2), -(ny // 2)
+    i1, j1 = i0 + nx - 1, j0 + ny - 1
+    cells = [(i, j) for i in range(i0, i1 + 1) for j in range(j0, j1 + 1)]
+    cells = [c for c in cells if not ((empty == "L" and c[0] == i0) or (empty == "R" and c[0] == i1) or (empty == "B" and c[1] == j0) or (empty == "T" and c[1] == j1))]
+    contents = {c: ("OC" if (c[0] + c[1]) % 2 else "IC") for c in cells}
+
+    def f(spec):
+        g = spec["grids"]["core"]
+        g.update(symmetry="full", contents=contents, map_kind="cart", extent=[i0, i1, j0, j1])
+        g["as_map"] = bool(asmap)
+
+    return f
+
+
+for _nx, _ny in ((4, 4), (3, 3), (6, 2), (2, 4), (5, 4), (3, 2)):
+    for _e in ("", "L", "R", "T", "B"):
+        if not _e and _nx == _ny:
+            continue
+        if (_e in "LR" and _e and _nx < 3) or (_e in "TB" and _e and _ny < 3):
+            continue
+        dev(["cart"], "grid", "full%dx%d%sm" % (_nx, _ny, _e))(_cart_extent_grid(_nx, _ny, _e, True))
+    dev(["cart"], "grid", "full%dx%dL" % (_nx, _ny))(_cart_extent_grid(_nx, _ny, "L" if _nx >= 3 else "T", False))
+
+
+def _padded(dom, rings, hole):
+    base = _hex_grid(dom, rings, hole, True)
+
+    def f(spec):
+        base(spec)
+        spec["grids"]["core"]["map_pad"] = 1  # an outer ring (third: top row) of placeholders only
+
+    return f
+
+
+for _dom in "tfc":
+    dev(["hex"], "grid", "%s2pm" % _dom)(_padded(_dom, 2, ""))
+    dev(["hex"], "grid", "%s3hpm" % _dom)(_padded(_dom, 3, "h"))
 
 
 @dev(["hex"], "pitch", "given")
